@@ -174,7 +174,10 @@ VK_MAIN()
         struct vk_item A1 = vk_wl[0], B1 = vk_wl[1];
         aln_runner_serial(m2);
         int n2 = vk_wl_n - n1;
-        VK_ASSERT(!vk_wl_overflow && n1 == 2 && n2 == 2, "a non-trivial step hands down exactly two sub-problems (both kernels)");
+        /* rectangle / pattern combinations the recursion cannot produce (e.g. a single row entered and left in the gap state)
+         * have no finite meeting point: aln_continue then hands down nothing - the two kernel families must still agree */
+        VK_ASSERT(!vk_wl_overflow && n1 == n2 && (n1 == 2 || n1 == 0), "C07: both kernel families hand down the same number of sub-problems (two, or none when no finite meeting point exists)");
+        if (n1 != 2) { VK_END(); }
         struct vk_item A2 = vk_wl[n1], B2 = vk_wl[n1 + 1];
         VK_ASSERT(A1.starta == A2.starta && A1.enda == A2.enda && A1.startb == A2.startb && A1.endb == A2.endb && st_same(A1.f0, A2.f0) && st_same(A1.b0, A2.b0),
                   "C07: the profile kernel splits the rectangle exactly as the sequence-sequence kernel does (first sub-problem)");
